@@ -14,7 +14,7 @@ EXPLANATION = (
     "the Ok edge of resolver::resolve only, and Compiler::compile verifies the module after generating every "
     "declaration; R5 every LLVM global/function/struct created by declare is registered under the declaration's "
     "resolution_id before use; R6 a function keeps its symbol name although constants are globals in the same LLVM namespace "
-    "(the name is freed before LLVMAddFunction); R7 (shared with C01) struct insert/extract/GEP indices derive from the member offset the typer "
+    "(the name is freed before LLVMAddFunction); R8 call instructions carry the calling convention of the callee; R7 (shared with C01) struct insert/extract/GEP indices derive from the member offset the typer "
     "resolved by name, never from source position (constant aggregates of the wrong shape pass the in-process verifier "
     "and are only rejected by llvm-as). Validity of every emitted instruction is decided by LLVM at run time: not decided.")
 
@@ -225,6 +225,34 @@ def r6_symbol_namespace(run, F):
            "(global names decorated: %s, name freed before LLVMAddFunction: %s, rejected by the scoper: %s)" % (disjoint, frees, cross))
 
 
+def r8_call_convention(run, F):
+    """A call instruction uses the calling convention of its callee (declare() gives non-extern functions fastcc): LLVM
+    defines a mismatch as undefined behaviour -- the verifier accepts it, the optimizer turns the caller into `unreachable`."""
+    from rules import origins
+    g = F.body("<alpha::resolved::Expression as alpha::generator::Generatable>::generate")
+    m = hirq.find_match(g, min_arms=10)
+    arm = hirq.arm_for(m, "Expression::FunctionCall")
+    run.require(arm, "FunctionCall arm not found in Expression::generate")
+    body = arm[0]["body"]
+    calls = [c for c in hirq.calls(body) if (hirq.callee(c) or "").endswith("LLVMBuildCall")]
+    run.require(len(calls) == 1, "FunctionCall arm: expected one LLVMBuildCall (found %d)" % len(calls))
+    callee_l = hirq.unwrap_trivial(calls[0]["a"][1])
+    sets = [c for c in hirq.calls(body) if (hirq.callee(c) or "").endswith("LLVMSetInstructionCallConv")]
+    ok = False
+    detail = "no LLVMSetInstructionCallConv after LLVMBuildCall"
+    for c in sets:
+        o0 = origins.origins(g["hir"], c["a"][0], g.get("params", ()))
+        o1 = origins.origins(g["hir"], c["a"][1], g.get("params", ()))
+        inst_ok = any(x[0] == "call" and x[1].endswith("LLVMBuildCall") for x in o0)
+        gets = [x for x in hirq.calls(body) if (hirq.callee(x) or "").endswith("LLVMGetFunctionCallConv")]
+        same_fn = any(hirq.unwrap_trivial(x["a"][0]).get("lid") == callee_l.get("lid") and callee_l.get("lid") is not None for x in gets)
+        cc_ok = any(x[0] == "call" and x[1].endswith("LLVMGetFunctionCallConv") for x in o1)
+        detail = "instruction from LLVMBuildCall: %s, convention from LLVMGetFunctionCallConv: %s, of the called function: %s" % (inst_ok, cc_ok, same_fn)
+        ok = ok or (inst_ok and cc_ok and same_fn)
+    run.ob("R8-CALL-CONVENTION", "FunctionCall", ok, F.where(g, calls[0]),
+           "the call instruction must be given the callee's calling convention: " + detail)
+
+
 def check(run):
     F = run.facts("B")
     r1_reset(run, F)
@@ -233,6 +261,7 @@ def check(run):
     r4_only_resolved(run, F)
     r5_registration(run, F)
     r6_symbol_namespace(run, F)
+    r8_call_convention(run, F)
     # aggregate constants are not inspected by the in-process verifier: an insertvalue chain of constants with a wrong
     # index folds into a constant of the wrong shape that only the textual IR reader rejects (shared with C01.R7)
     from props import c01
